@@ -173,7 +173,14 @@ def impl_builtin(case):
             first = Saving(L2Cost(param=0.0))
         else:
             first = GaussianVarCost(param=(0.0, 1.0)) if gv else None
-        det = MVCAPA(first,
+        # the point saving may be given as a fixed-mean cost as well: it is then wrapped by the same adapter class as the
+        # collective one although the two have different numbers of parameters per variable
+        psv = None
+        if gv and core._bits(case, 16, 2) == 0:
+            from skchange.costs import L2Cost as _L2
+
+            psv = _L2(param=0.0)
+        det = MVCAPA(first, psv,
                      collective_penalty=case["cfam"], collective_penalty_scale=case["cs"], point_penalty=case["pfam"],
                      point_penalty_scale=case["ps"], min_segment_length=case["m"], max_segment_length=max(case["M"], case["m"]))
         if swap:
